@@ -241,7 +241,34 @@ def run(rep, ctx):
             if sel != (1 if t else 2):
                 bad = "condition %s selects argument %s" % (t, sel)
         idx = f.parent.get(co[0]["i"])
-    e1.check(len(co) == 1 and bad is None, "ifthen-selector", short_loc(f.loc), "if-then-else: value of argument 1 when the condition holds, of argument 2 otherwise", bad or "shape")
+    if len(co) != 1:
+        # written without the conditional operator: the evaluator is run on a modelled point (x[arg k] = X[k])
+        bad = None
+        for cond_ in (0.0, 0.4, 0.5, 1.0):
+            X_ = [cond_, 10.0, 20.0]
+            box = {}
+
+            def atom(t_, n_, env_):
+                if n_["k"] == "CXXOperatorCallExpr" and n_.get("op") == "[]":
+                    base_, ix_ = call_args(n_)[0], call_args(n_)[1]
+                    k_ = box["mi"].expr(ix_, env_, 0)
+                    if render(base_).replace(" ", "").endswith("GetArguments()"):
+                        return int(k_)
+                    if strip(base_).get("declId") == f.params[1]["declId"] and 0 <= int(k_) < 3:
+                        return X_[int(k_)]
+                return None
+            mi = MiniInt(F, atom)
+            box["mi"] = mi
+            try:
+                got_ = mi.call(f, [("obj", None, None), ("obj", None, None)])
+            except AnalysisBroken as e_:
+                bad = "not evaluable: %s" % str(e_)[:80]
+                break
+            if got_ != (X_[1] if cond_ >= 0.5 else X_[2]):
+                bad = "condition value %s selects %s" % (cond_, got_)
+        e1.check(bad is None, "ifthen-selector", short_loc(f.loc), "if-then-else: value of argument 1 when the condition holds, of argument 2 otherwise", bad or "")
+    else:
+        e1.check(bad is None, "ifthen-selector", short_loc(f.loc), "if-then-else: value of argument 1 when the condition holds, of argument 2 otherwise", bad or "shape")
     # and / or (and count, below): evaluated on modelled argument vectors - the evaluator may be a loop with an early return
     # or a standard algorithm with a lambda
     def eval_vector(f, truths):
